@@ -82,6 +82,21 @@ CHECKS = {
             "implementation may only return a CEL value or raise CELEvalError / a located CELParseError, renderable with str() and "
             "repr(); accept/reject must agree with the grammar.",
             "Trusted: TLC, the outcome classifier. Lexical maximal munch is out of model.", "5/C04"),
+    "C12": ("TLA+ spec CelNames (longest-prefix resolution over package levels) and CelEval (environment stack for macro variables) checked "
+            "by TLC; every binding configuration x package x reference and every macro nesting replayed under both runners; random "
+            "macro nestings validated by Trace_Eval",
+            "TLC enumerates every configuration of bindings over the path a.b.c (each prefix unbound / scalar / nested map, at the root and "
+            "under the package prefixes p and p.q, every binding tagged with a distinct integer) x package x reference, and nestings of "
+            "macros with colliding and distinct variable names plus outer variables; the implementation must return the tagged value "
+            "the specification resolves to, with and without declarations.",
+            "Trusted: TLC, the harness's construction of dotted bindings. References that stop at a bare namespace prefix are indefinite.", "5/C12"),
+    "C14": ("TLA+ reference evaluator CelEval with specified host functions (HostApply) and expected call log (Calls) checked by TLC; every "
+            "call-shape program replayed in 16 configurations (list/dict x module def/nested def/lambda/callable object x both runners)",
+            "TLC enumerates call shapes (global and method form, 0-3 arguments, nested calls, calls under every error-absorbing operator "
+            "and inside macro bodies, a supplied function shadowing size, unbound names); the specification's outcome and call log depend "
+            "on the shape only, so uniformity is checked by replaying each state in all 16 ways of supplying the functions and "
+            "comparing outcome and the multiset of calls received; an override must not leak into a later program.",
+            "Trusted: TLC, the recording host functions of the harness.", "5/C14"),
 }
 NOT_YET = "check not built yet in this phase (planned per DESIGN.md section 5)"
 
